@@ -93,6 +93,9 @@ func compactDecode(data []byte) (uint64, int) {
 		for i := 0; i < 8; i++ {
 			v |= uint64(data[1+i]) << (8 * i)
 		}
+		if v < uint64(1)<<56 {
+			return 0, 0 // not minimally encoded
+		}
 		return v, 9
 	}
 
@@ -124,6 +127,11 @@ func compactDecode(data []byte) (uint64, int) {
 		v |= uint64(data[1+i]) << (8 * i)
 	}
 	v += uint64(rem) << (8 * length)
+
+	// canonical form: 2^(7*length) <= v
+	if v < uint64(1)<<(7*length) {
+		return 0, 0 // not minimally encoded
+	}
 
 	return v, totalBytes
 }
